@@ -10,6 +10,7 @@ from __future__ import annotations
 from typing import List, Optional, Tuple
 
 from .base import *  # noqa: F401,F403
+from .. import flow as _flow  # noqa: E402
 
 GID = "mosaik.scheduler.get_input_data"
 GETOUT = "mosaik.scheduler.get_outputs"
@@ -423,7 +424,7 @@ def _buffer(ctx: Ctx, c: Collector) -> None:
             got_t, got_v = T.replace(unalias(e.term[1], s, fi), popped), T.replace(unalias(e.term[2], s, fi), popped)
             if got_t != want_t or got_v != f(5):
                 pr.append("reader and writer disagree on the tuple layout: the popped entry is not stored as inputs[entry[3]][entry[4]][entry[2]] = entry[5]")
-            if e.guards != p.guards:
+            if _flow._tidy_guards(e.guards, e.iters) != _flow._tidy_guards(p.guards, p.iters):
                 pr.append("a popped entry is only conditionally delivered (popped but lost)")
     if not s.returns or s.returns[-1].term != inp:
         pr.append("does not return the input dict")
